@@ -8,6 +8,7 @@ package PKGNAME
 import (
 	"math"
 	"syscall"
+	"time"
 	"unsafe"
 	"encoding/json"
 	"errors"
@@ -402,3 +403,7 @@ func zzB2I(b bool) int {
 // zzSameTerm: the engine answers whether the two values were computed by the same operations on the same inputs
 // (hash-consed term identity); native: identical bit patterns.
 func zzSameTerm(a, b float64) bool { return math.Float64bits(a) == math.Float64bits(b) }
+
+// zzSameTime: the engine answers whether the two time values were built by the same (uninterpreted) time functions
+// from the same arguments; native: the same instant.
+func zzSameTime(a, b time.Time) bool { return a.Equal(b) }
